@@ -8,4 +8,5 @@ for c in "$@"; do
   (cd /verif && ./check $c 2>&1 | grep -E "VIOLATION|CHECK-FAILED|KNOWN|^  |ok \(|VIOLATED") 
 done
 git -C /repo checkout -- .
+git -C /repo clean -fdq src
 git -C /repo status --short | head -3
